@@ -78,3 +78,30 @@ func kernOp(toks []string) (string, bool) {
 	}
 	return "", false
 }
+
+// kproc <closed> <n> x1 y1 ... : processPoints on arbitrary doubles (hook VerifProcessPoints),
+// compared with the definition regenerated from geometry/series.go evaluated at Lean's Float
+func kprocOp(toks []string) (string, bool) {
+	if toks[0] != "kproc" {
+		return "", false
+	}
+	if len(toks) < 3 {
+		return "bad-op", true
+	}
+	n, err := strconv.Atoi(toks[2])
+	if err != nil || n < 0 || (toks[1] != "0" && toks[1] != "1") {
+		return "bad-op", true
+	}
+	pts, ok := kpts(toks[3:], n)
+	if !ok {
+		return "bad-op", true
+	}
+	convex, rect, cw := geometry.VerifProcessPoints(pts, toks[1] == "1")
+	h := func(f float64) string {
+		if f != f {
+			return "7ff8000000000000" // Lean's Float.toBits does not keep NaN payloads
+		}
+		return hexF(f)
+	}
+	return b2s(convex) + b2s(cw) + " " + h(rect.Min.X) + " " + h(rect.Min.Y) + " " + h(rect.Max.X) + " " + h(rect.Max.Y), true
+}
